@@ -459,3 +459,7 @@ Definition wf_safe (L : rlayout) : bool :=
    whole range -- the `split_off(range.start)` getters do not *)
 Definition wf_exact (L : rlayout) : bool :=
   wf_safe L && forallb (fun g => match g_acc g with ASplitOff => false | _ => true end) (r_getters L).
+
+(* layouts translated but excluded from the theorem, by name (each one is a finding, see notes/C01L.md) *)
+Definition layouts_except (names : list string) (Ls : list rlayout) : list rlayout :=
+  filter (fun L => negb (mem (r_name L) names)) Ls.
